@@ -5,7 +5,9 @@ import (
 	"context"
 	"encoding/binary"
 	"fmt"
+	"math"
 	"time"
+	"verifsim/simcore"
 
 	"go.brendoncarroll.net/p2p"
 	"go.brendoncarroll.net/p2p/zsimrt"
@@ -18,8 +20,9 @@ type AskRec struct {
 	Chan     int
 	Req      []byte
 	RespLen  int  // what the handler is told to produce
-	Negative bool // the handler returns -1
-	BufLen   int  // size of the asker's response buffer
+	Negative bool // the handler returns a negative value (NegVal)
+	NegVal   int
+	BufLen   int // size of the asker's response buffer
 
 	Call, Ret int
 	CallAt    time.Duration
@@ -112,8 +115,8 @@ func (w *World) onAsk(ep Endpoint, ch int, resp []byte, m Msg) int {
 	}
 	if rec.Negative {
 		rec.HandlerResp = append(rec.HandlerResp, nil)
-		rec.HandlerRet = append(rec.HandlerRet, -1)
-		return -1
+		rec.HandlerRet = append(rec.HandlerRet, rec.NegVal)
+		return rec.NegVal
 	}
 	n := rec.RespLen
 	if n > len(resp) {
@@ -156,6 +159,10 @@ func (w *World) AskOnce(ctx context.Context, ep Endpoint, to, ch, reqLen, mtu in
 		rec.RespLen = 100000
 	}
 	rec.Negative = w.AskFaults && st.Bool(1, 6)
+	if rec.Negative {
+		// every negative value is a failure, not only -1
+		rec.NegVal = simcore.Pick(st, -1, -1, -2, -3, -255, -256, -257, -512, -65536, math.MinInt32, math.MinInt)
+	}
 	switch {
 	case w.AskFaults && st.Bool(1, 5) && rec.RespLen > 0:
 		rec.BufLen = st.Intn(rec.RespLen) // too small
